@@ -174,7 +174,7 @@ def befores(rng, impl, ti, parent_path, *, malformed=False):
     return c
 
 
-def random_op(rng, impl, ti, *, labels, malformed=0.1, typed=False, ops=None):
+def random_op(rng, impl, ti, *, labels, malformed=0.1, typed=False, ops=None, did_rate=0.15, dids=(1001, 1002, "x", "y", 7)):
     """one random (mostly valid) op on tree ti, based on the implementation's current shape"""
     t = impl.trees[ti]
     paths = paths_of(t)
@@ -187,8 +187,8 @@ def random_op(rng, impl, ti, *, labels, malformed=0.1, typed=False, ops=None):
     if k == "add":
         p = rng.choice(allp)
         op = {"op": "w.add", "t": ti, "p": p, "a": rng.choice(labels), "before": rng.choice(befores(rng, impl, ti, p, malformed=mal))}
-        if rng.random() < 0.15:
-            op["did"] = rng.choice([1001, 1002, "x", "y", 7])
+        if rng.random() < did_rate:
+            op["did"] = rng.choice(list(dids))
         if typed:
             op["kind"] = rng.choice(["a", "b", None])
         if op["before"] is None and rng.random() < 0.3:
